@@ -106,3 +106,25 @@ pub fn thread_cpu_ms() -> u64 {
     }
     ts.tv_sec as u64 * 1000 + ts.tv_nsec as u64 / 1_000_000
 }
+
+/// a logger that lets every record through and formats it (then throws it away): the arguments of the library's log
+/// statements are evaluated, as they are in a deployment that runs with trace logging
+pub struct EagerLogger;
+impl log::Log for EagerLogger {
+    fn enabled(&self, _: &log::Metadata) -> bool {
+        true
+    }
+    fn log(&self, record: &log::Record) {
+        use std::fmt::Write;
+        let mut s = String::new();
+        let _ = write!(s, "{}", record.args());
+        std::hint::black_box(&s);
+    }
+    fn flush(&self) {}
+}
+pub static EAGER_LOGGER: EagerLogger = EagerLogger;
+pub fn install_logger() {
+    if log::set_logger(&EAGER_LOGGER).is_ok() {
+        log::set_max_level(log::LevelFilter::Trace);
+    }
+}
